@@ -286,7 +286,7 @@ def next_rules(run, r_sel, r_always, ast):
                 cid = cfg.blocks[x].get("cond")
                 cn = byid.get(cid)
                 cls = _classify_cond(cn, cfg.blocks[x])
-                if cls in ("loop", "trace"):
+                if cls in ("loop", "trace") or _is_assert(cfg, x):
                     continue
                 if cn is not None and any(y.get("k") == "MemberExpr" and y.get("member") == "next" for y in astq.walk(cn)) and not any(y.get("k") == "UnaryOperator" and y.get("op") == "*" for y in astq.walk(cn)):
                     continue        # the null test of the pointer itself
@@ -312,6 +312,8 @@ def _mentions_first(scope, expr, set_did):
 
 
 def _transitive_cdeps(cfg, b):
+    """control dependences of block b, transitively - but not through assertion branches (what an
+    assertion's own evaluation depends on is not a guard of the code after it)."""
     seen = set()
     work = [b]
     while work:
@@ -319,7 +321,8 @@ def _transitive_cdeps(cfg, b):
         for d in cfg.control_deps(x):
             if d not in seen:
                 seen.add(d)
-                work.append(d)
+                if not _is_assert(cfg, d):
+                    work.append(d)
     return seen
 
 
@@ -469,8 +472,29 @@ def _cdep_conds(f, node):
     out = []
     for x in _transitive_cdeps(cfg, b):
         cn = byid.get(cfg.blocks[x].get("cond"))
-        out.append((_classify_cond(cn, cfg.blocks[x]), cn, cfg.blocks[x]))
+        cls = _classify_cond(cn, cfg.blocks[x])
+        if _is_assert(cfg, x):
+            cls = "trace"       # BOOST_ASSERT / assert: the failing outcome does not return
+        out.append((cls, cn, cfg.blocks[x]))
     return out
+
+
+def _is_assert(cfg, x):
+    """a two-way branch one of whose outcomes immediately reaches a noreturn call (assertion failure)"""
+    blk = cfg.blocks[x]
+    if blk.get("termk") not in ("ConditionalOperator", "BinaryOperator", "IfStmt"):
+        return False
+    if blk.get("termk") == "IfStmt":
+        return False
+    for s in cfg.succ[x]:
+        sb = cfg.blocks[s]
+        if sb.get("noreturn"):
+            return True
+        # the noreturn call may sit one empty block further
+        ss = cfg.succ[s]
+        if len(ss) == 1 and cfg.blocks[ss[0]].get("noreturn") and not sb.get("stmts"):
+            return True
+    return False
 
 
 def merge_rules(run, r_bases, r_ids, ast):
@@ -1215,7 +1239,7 @@ def reserve_rules(run, rule, ast):
                 blk = cfg.blocks[x]
                 cn = byid.get(blk.get("cond"))
                 cls = _classify_cond(cn, blk)
-                if cls in ("loop", "trace") or cn is None:
+                if cls in ("loop", "trace") or cn is None or _is_assert(cfg, x):
                     continue
                 c0 = astq.strip(cn)
                 mems = {y.get("member") for y in astq.walk(cn) if y.get("k") == "MemberExpr"}
